@@ -10,22 +10,25 @@ driver-owned promises.  A *schedule* is an operation list: driver operations (`c
 `detach`, `start` = `start()` / `future<T>(async)` / returning it from a `future<T>` coroutine / `join` / `thread_pool::run`
 — they all go through `async::start_promise` on a fresh promise —, `startP` = `start(promise)`, `setF`/`dropP` =
 the driver resolves / drops a promise) interleaved in any way with micro-steps `step c` of any coroutine.  Every theorem
-quantifies over **all programs, all `nExt` and all schedules** (`Reachable`), i.e. every start mode × completion mode
-× interleaving × nesting depth; the ghost counters are cumulative over the whole history.
+quantifies over **all programs, all `nExt`, all result types and all schedules** (`Reachable`), i.e. every start mode ×
+completion mode × interleaving × nesting depth × behaviour of the result value's constructor at `co_return` (`State.ctorExc`:
+for which operands the converting / copy construction inside the bound future throws, and what — an arbitrary function;
+constantly `none` for `int`, `void`, references); the ghost counters are cumulative over the whole history.
 -/
 namespace Cocls.Async
 
-/-- every state reachable by some schedule of the program -/
-def Reachable (prog : Nat → List Act) (nExt : Nat) (s : State) : Prop := ∃ ops, s = run (init prog nExt) ops
+/-- every state reachable by some schedule of the program, for some result type (`cx` = which `co_return` operands make the
+constructor of the result value throw, and what: any function — `fun _ _ => none` is `int`/`void`/a reference) -/
+def Reachable (prog : Nat → List Act) (nExt : Nat) (s : State) : Prop := ∃ cx ops, s = run (init prog nExt cx) ops
 
 theorem reachable_inv {prog : Nat → List Act} {nExt : Nat} {s : State} (h : Reachable prog nExt s) : Inv s := by
-  obtain ⟨ops, rfl⟩ := h
-  exact inv_run _ ops (inv_init prog nExt)
+  obtain ⟨cx, ops, rfl⟩ := h
+  exact inv_run _ ops (inv_init prog nExt cx)
 
 theorem reachable_run {prog : Nat → List Act} {nExt : Nat} {s : State} (h : Reachable prog nExt s) (ops : List Op) :
     Reachable prog nExt (run s ops) := by
-  obtain ⟨ops0, rfl⟩ := h
-  exact ⟨ops0 ++ ops, by simp [run, List.foldl_append]⟩
+  obtain ⟨cx, ops0, rfl⟩ := h
+  exact ⟨cx, ops0 ++ ops, by simp [run, List.foldl_append]⟩
 
 /-- **Body exactly once.**  On every schedule the number of times the body of `c` has begun is 1 if `c` is in a state
 past the beginning of its body and 0 otherwise, never more; the number of successful start operations is 1 iff the handle
@@ -58,7 +61,7 @@ theorem c04_final_forever {prog : Nat → List Act} {nExt : Nat} {s : State} (_h
     (ops : List Op) :
     ((s.co c).st = St.done → ((run s ops).co c).st = St.done)
     ∧ ((s.co c).st = St.dropped → ((run s ops).co c).st = St.dropped) :=
-  ⟨(le_run s ops c).2, (le_run s ops c).1⟩
+  ⟨fun h => ((le_run s ops c).2 h).1, (le_run s ops c).1⟩
 
 /-- **Delivery to exactly the bound party.**  When the coroutine has finished, its result was stored into exactly
 the futures `bound.toList` — its bound future, nobody when detached — and that future is ready, holds exactly the
@@ -243,8 +246,8 @@ theorem c04_awaited_child_alive {prog : Nat → List Act} {nExt : Nat} {s : Stat
       ∧ ∀ ops, ((run s ops).co j).bound = some f := by
   have hi := reachable_inv h
   have hab : AllBound s := by
-    obtain ⟨ops, rfl⟩ := h
-    exact ab_run _ ops (inv_init prog nExt) (ab_init prog nExt)
+    obtain ⟨cx, ops, rfl⟩ := h
+    exact ab_run _ ops (inv_init prog nExt cx) (ab_init prog nExt cx)
   have hlt : f < s.nextFut := hi.refs_lt p f (by simp [hp, St.refs])
   obtain ⟨j, hj⟩ := hab f hf hlt
   have hnr := ((c04_no_lost_wakeup h).1 p f ct hp).2
@@ -266,8 +269,8 @@ theorem c04_notified_before_frame_dies {prog : Nat → List Act} {nExt : Nat} {s
     ∧ ((s.co c).st ≠ St.done → (s.co c).notifiedAtFree = none) := by
   have hi := reachable_inv h
   have hcb : CbInv s := by
-    obtain ⟨ops, rfl⟩ := h
-    exact cb_run _ ops (cb_init prog nExt)
+    obtain ⟨cx, ops, rfl⟩ := h
+    exact cb_run _ ops (cb_init prog nExt cx)
   have hn := (hi.co_ok c).notif
   constructor
   · intro hd
@@ -284,8 +287,8 @@ a callback never call one -/
 theorem c04_callback_once {prog : Nat → List Act} {nExt : Nat} {s : State} (h : Reachable prog nExt s) (f : Nat) :
     (s.fut f).cbCalls = (if (s.fut f).isOp && (s.fut f).ready then 1 else 0)
     ∧ (s.fut f).cb = ((s.fut f).isOp && !(s.fut f).ready) := by
-  obtain ⟨ops, rfl⟩ := h
-  exact cb_run _ ops (cb_init prog nExt) f
+  obtain ⟨cx, ops, rfl⟩ := h
+  exact cb_run _ ops (cb_init prog nExt cx) f
 
 /-- **Progress.**  A started coroutine that has not finished can always either take a step or is suspended on a future
 that is not resolved yet — it is never stranded in a state nobody will move (the executor's ordering is C05's business). -/
@@ -321,7 +324,7 @@ def demoOps : List Op :=
    Op.setF 0 (Outcome.val 7), Op.create 5, Op.startP 5 0,                             -- refused
    Op.step 2, Op.step 2, Op.step 1, Op.step 1]
 
-example : Reachable demoProg 1 (run (init demoProg 1) demoOps) := ⟨_, rfl⟩
+example : Reachable demoProg 1 (run (init demoProg 1) demoOps) := ⟨_, _, rfl⟩
 example : ((run (init demoProg 1) (demoOps.take 7)).co 1).st = St.awaiting 2 true
     ∧ ((run (init demoProg 1) (demoOps.take 7)).co 2).st = St.awaiting 0 true := by decide
 example : ((run (init demoProg 1) demoOps).co 1).outcome = some (Outcome.val 22)
@@ -354,6 +357,140 @@ theorem c04_destroy_first_violates :
     ((finishDestroyFirst (run (init opProg 1) opOps) 1 (Outcome.val 12)).co 1).notifiedAtFree = some false
     ∧ ((finishDestroyFirst (run (init opProg 1) opOps) 1 (Outcome.val 12)).fut 1).cbCalls = 0
     ∧ ((finishDestroyFirst (run (init opProg 1) opOps) 1 (Outcome.val 12)).fut 1).ready = false := by decide
+
+/-! ### result types whose construction at `co_return` can throw -/
+
+/-- what `finish` leaves in the record of the finishing coroutine itself -/
+theorem finish_self (s : State) (c : Nat) (o : Outcome) :
+    ((finish s c o).co c).st = St.done ∧ ((finish s c o).co c).outcome = some o
+    ∧ ((finish s c o).co c).bound = (s.co c).bound := by
+  unfold finish
+  split
+  · rename_i hb; simp [retire, setCo, hb]
+  · rename_i f hb; simp [retire, setCo, deliver, resolve, setFut, wakeOne, hb]
+
+/-- **`co_return` with any result type, for the rest of every run.**  In every reachable state (any program, any start mode,
+any result-constructor behaviour `ctorExc`), when coroutine `c` executes `co_return v` (operand converted, or copied when
+`cp`), then after that step and after *every* continuation `ops` of the schedule: `c` is finished, what it ended with is
+`resultOf …` — the value, or, for a bound coroutine whose result construction throws `e`, the exception `e` —; its binding is
+unchanged; a detached coroutine delivered to nobody (and nothing was constructed, so nothing threw); and the bound future is
+ready, holds exactly that outcome — in particular it is never left without a value — and was written once, by `c`. -/
+theorem c04_result_construction {prog : Nat → List Act} {nExt : Nat} {s : State} (h : Reachable prog nExt s)
+    (c v : Nat) (cp : Bool) (rest : List Act)
+    (hr : (s.co c).st = St.running) (hpc : (s.co c).pc = Act.ret v cp :: rest) (ops : List Op) :
+    ((run s (Op.step c :: ops)).co c).st = St.done
+    ∧ ((run s (Op.step c :: ops)).co c).outcome = some (resultOf s.ctorExc (s.co c).bound cp (v + (s.co c).acc))
+    ∧ ((run s (Op.step c :: ops)).co c).bound = (s.co c).bound
+    ∧ ((s.co c).bound = none → ((run s (Op.step c :: ops)).co c).deliveredTo = [])
+    ∧ ∀ f, (s.co c).bound = some f →
+        ((run s (Op.step c :: ops)).fut f).ready = true
+        ∧ ((run s (Op.step c :: ops)).fut f).out = some (resultOf s.ctorExc (s.co c).bound cp (v + (s.co c).acc))
+        ∧ ((run s (Op.step c :: ops)).fut f).setBy = [some c] := by
+  have ht : Reachable prog nExt (run s (Op.step c :: ops)) := reachable_run h _
+  have e1 : (step s (Op.step c)).1
+      = finish (setCo s c { s.co c with pc := rest }) c (resultOf s.ctorExc (s.co c).bound cp (v + (s.co c).acc)) := by
+    simp [step, stepCo, hr, hpc, execAct, setCo]
+  have hrun : run s (Op.step c :: ops) = run (step s (Op.step c)).1 ops := rfl
+  obtain ⟨a1, a2, a3⟩ := finish_self (setCo s c { s.co c with pc := rest }) c
+    (resultOf s.ctorExc (s.co c).bound cp (v + (s.co c).acc))
+  have a3' : ((step s (Op.step c)).1.co c).bound = (s.co c).bound := by rw [e1, a3]; simp [setCo]
+  rw [← e1] at a1 a2
+  obtain ⟨b1, b2, b3⟩ := (le_run (step s (Op.step c)).1 ops c).2 a1
+  rw [← hrun] at b1 b2 b3
+  have hd := c04_delivery ht c b1
+  refine ⟨b1, by rw [b2, a2], by rw [b3, a3'], ?_, ?_⟩
+  · intro hb; rw [hd.1, b3, a3', hb]; rfl
+  · intro f hf
+    have := hd.2.2 f (by rw [b3, a3', hf])
+    refine ⟨this.1, by rw [this.2.1, b2, a2], this.2.2⟩
+
+/-- **The exception of a throwing result constructor reaches the bound party.**  If `c` is bound to `f` and constructing the
+result from the `co_return` operand throws `e`, then for the rest of every run `f` is ready and holds *that exception* (not
+"no value"/`await_canceled_exception`, not the value), stored once by `c`, and it is what `c` is recorded to have ended with. -/
+theorem c04_ctor_exception_delivered {prog : Nat → List Act} {nExt : Nat} {s : State} (h : Reachable prog nExt s)
+    (c v f e : Nat) (cp : Bool) (rest : List Act)
+    (hr : (s.co c).st = St.running) (hpc : (s.co c).pc = Act.ret v cp :: rest)
+    (hb : (s.co c).bound = some f) (he : s.ctorExc cp (v + (s.co c).acc) = some e) (ops : List Op) :
+    ((run s (Op.step c :: ops)).fut f).ready = true
+    ∧ ((run s (Op.step c :: ops)).fut f).out = some (Outcome.exc e)
+    ∧ ((run s (Op.step c :: ops)).fut f).setBy = [some c]
+    ∧ ((run s (Op.step c :: ops)).co c).outcome = some (Outcome.exc e) := by
+  have hres : resultOf s.ctorExc (s.co c).bound cp (v + (s.co c).acc) = Outcome.exc e := by simp [resultOf, hb, he]
+  obtain ⟨_, h2, _, _, h5⟩ := c04_result_construction h c v cp rest hr hpc ops
+  rw [hres] at h2 h5
+  exact ⟨(h5 f hb).1, (h5 f hb).2.1, (h5 f hb).2.2, h2⟩
+
+/-- a detached coroutine constructs no result at all: whatever the constructor would do with the operand, the coroutine ends
+with the value, nothing is delivered anywhere -/
+theorem c04_detached_constructs_nothing {prog : Nat → List Act} {nExt : Nat} {s : State} (h : Reachable prog nExt s)
+    (c v : Nat) (cp : Bool) (rest : List Act)
+    (hr : (s.co c).st = St.running) (hpc : (s.co c).pc = Act.ret v cp :: rest)
+    (hb : (s.co c).bound = none) (ops : List Op) :
+    ((run s (Op.step c :: ops)).co c).outcome = some (Outcome.val (v + (s.co c).acc))
+    ∧ ((run s (Op.step c :: ops)).co c).deliveredTo = [] := by
+  obtain ⟨_, h2, _, h4, _⟩ := c04_result_construction h c v cp rest hr hpc ops
+  exact ⟨by rw [h2]; simp [resultOf, hb], h4 hb⟩
+
+/-- the same at the end of the script (`co_return acc`, operand converted) -/
+theorem c04_result_construction_at_end {prog : Nat → List Act} {nExt : Nat} {s : State} (h : Reachable prog nExt s)
+    (c : Nat) (hr : (s.co c).st = St.running) (hpc : (s.co c).pc = []) (ops : List Op) :
+    ((run s (Op.step c :: ops)).co c).st = St.done
+    ∧ ((run s (Op.step c :: ops)).co c).outcome = some (resultOf s.ctorExc (s.co c).bound false (s.co c).acc)
+    ∧ ∀ f, (s.co c).bound = some f →
+        ((run s (Op.step c :: ops)).fut f).ready = true
+        ∧ ((run s (Op.step c :: ops)).fut f).out = some (resultOf s.ctorExc (s.co c).bound false (s.co c).acc) := by
+  have ht : Reachable prog nExt (run s (Op.step c :: ops)) := reachable_run h _
+  have e1 : (step s (Op.step c)).1 = finish s c (resultOf s.ctorExc (s.co c).bound false (s.co c).acc) := by
+    simp [step, stepCo, hr, hpc]
+  have hrun : run s (Op.step c :: ops) = run (step s (Op.step c)).1 ops := rfl
+  obtain ⟨a1, a2, a3⟩ := finish_self s c (resultOf s.ctorExc (s.co c).bound false (s.co c).acc)
+  rw [← e1] at a1 a2 a3
+  obtain ⟨b1, b2, b3⟩ := (le_run (step s (Op.step c)).1 ops c).2 a1
+  rw [← hrun] at b1 b2 b3
+  have hd := c04_delivery ht c b1
+  refine ⟨b1, by rw [b2, a2], ?_⟩
+  intro f hf
+  have := hd.2.2 f (by rw [b3, a3, hf])
+  exact ⟨this.1, by rw [this.2.1, b2, a2]⟩
+
+/-- result type of the harness (`struct picky`): converting `v` throws `20 + v % 3` when `v % 4 = 1`, copying throws
+`30 + v % 3` when `v % 4 = 2` -/
+def pkCx : Bool → Nat → Option Nat := fun cp v =>
+  if cp then (if v % 4 = 2 then some (30 + v % 3) else none) else (if v % 4 = 1 then some (20 + v % 3) else none)
+
+/-- coroutine 1 `co_await`s child 2 without catching; child 2 awaits external future 0 and `co_return`s a copy of `2 + value`;
+coroutine 3 is detached and `co_return`s 5 (the converting constructor would throw, but nothing is constructed) -/
+def pkProg : Nat → List Act
+  | 1 => [Act.awaitChild 2 true false, Act.ret 1]
+  | 2 => [Act.awaitFut 0 true, Act.ret 2 true]
+  | 3 => [Act.ret 5]
+  | _ => []
+
+def pkOps : List Op :=
+  [Op.create 1, Op.start 1, Op.step 1, Op.step 1, Op.step 2, Op.step 2, Op.step 2, Op.setF 0 (Outcome.val 4), Op.step 2]
+
+/-- non-vacuity of `c04_ctor_exception_delivered`: the hypotheses hold in a reachable state (child 2, bound to future 2, is at
+`co_return` of a copy of 6, whose copy constructor throws 30), … -/
+example : Reachable pkProg 1 (run (init pkProg 1 pkCx) pkOps) := ⟨_, _, rfl⟩
+example : ((run (init pkProg 1 pkCx) pkOps).co 2).st = St.running
+    ∧ ((run (init pkProg 1 pkCx) pkOps).co 2).pc = [Act.ret 2 true]
+    ∧ ((run (init pkProg 1 pkCx) pkOps).co 2).bound = some 2
+    ∧ (run (init pkProg 1 pkCx) pkOps).ctorExc true (2 + ((run (init pkProg 1 pkCx) pkOps).co 2).acc) = some 30 := by decide
+/-- … the exception reaches the awaiting parent (future 2), propagates (uncaught) to the parent's own bound future 1, and
+the detached coroutine 3 ends with the value although `picky(5)` would throw -/
+example :
+    let t := run (init pkProg 1 pkCx) (pkOps ++ [Op.step 2, Op.step 1, Op.create 3, Op.detach 3, Op.step 3, Op.step 3])
+    (t.fut 2).out = some (Outcome.exc 30) ∧ (t.fut 2).ready = true ∧ (t.fut 2).setBy = [some 2]
+    ∧ (t.co 1).outcome = some (Outcome.exc 30) ∧ (t.fut 1).out = some (Outcome.exc 30)
+    ∧ (t.co 3).outcome = some (Outcome.val 5) ∧ (t.co 3).deliveredTo = [] := by decide
+
+/-- The seeded variant that takes the `_resolved` flag before `set()` runs (`finishFlagFirst`) violates the property on exactly
+this program: the bound future of child 2 is resolved *without a value* (the parent would see `await_canceled_exception`)
+although the coroutine ended with exception 30 (replayed on the headers by corpus/c04_result_ctor_throws.txt). -/
+theorem c04_flag_before_set_violates :
+    ((finishFlagFirst (run (init pkProg 1 pkCx) pkOps) 2 true 6).fut 2).ready = true
+    ∧ ((finishFlagFirst (run (init pkProg 1 pkCx) pkOps) 2 true 6).fut 2).out = none
+    ∧ ((finishFlagFirst (run (init pkProg 1 pkCx) pkOps) 2 true 6).co 2).outcome = some (Outcome.exc 30) := by decide
 
 end Cocls.Async
 
